@@ -5,6 +5,8 @@ import PhysisModel.Proofs.TeraFloat
 import PhysisModel.Proofs.Pbd
 import PhysisModel.Proofs.HavokInt
 import PhysisModel.Proofs.HavokBits
+import PhysisModel.Proofs.HavokExtract
+import PhysisModel.Proofs.Sklb
 /-!
 # C16 — auxiliary asset decoders return the stored records
 Property theorems only; helper lemmas live in `Proofs/`.
@@ -221,5 +223,41 @@ example : Spec.HavokTag.encodeBits [true, false, false, true, false, false, fals
   decide
 example : Havok.readBitField 8 [0x89, 0x55] = some ([true, false, false, true, false, false, false, true], [0x55]) := by
   decide
+
+/-! ## skeletons: `Skeleton::from_existing` on a whole file -/
+
+/-- Parsing a skeleton file returns every bone's name, parent index and reference position, rotation
+and scale (f32 bit patterns): for both container versions (any header ids, any gap in front of the
+Havok data), any number of bones, arbitrary names (UTF-8), parent indices (any `i32` but `i32::MIN`)
+and poses, every packed-integer width and every choice of string back references the format allows
+(`p`) - for tag files with the standard skeleton type table (`Spec.HavokTag.stdFile`).
+
+Full statement (property C16): the same for Havok tag files with *arbitrary* type tables, i.e. for
+every `f : TagFile` with `Spec.HavokTag.wf f`, `¬ usesUnimplemented [] f` and `bonesOf f = some bones`:
+`Sklb.fromExisting (Spec.Sklb.encode h (encode p f)) = .ok (bones.map toBone)`.  That generalisation is
+covered by the differential correspondence only (`skel` cases), hence `_partial`. -/
+theorem c16_skeleton_partial (h : Spec.Sklb.Header) (p : Spec.HavokTag.Enc) (s : Spec.HavokTag.Skel)
+    (hh : h.WF) (hs : s.WF) :
+    Sklb.fromExisting (Spec.Sklb.encode h (Spec.HavokTag.encode p (Spec.HavokTag.stdFile s))) =
+      .ok (s.bones.map fun b => Havok.toBone b.bone) := by
+  rw [Sklb.fromExisting_encode h _ hh, Havok.read_std p s hs]
+  simp only [Havok.extract_std]
+
+/-- the specification's reading of the standard file is the list of bones it was built from -/
+theorem c16_skeleton_spec (s : Spec.HavokTag.Skel) :
+    Spec.HavokTag.bonesOf (Spec.HavokTag.stdFile s) = some (s.bones.map (·.bone)) :=
+  Havok.bonesOf_std s
+
+/-- a two-bone skeleton (`n_root`, `n_hara`), old container version, shortest integers, back references -/
+example : Spec.Sklb.Header.WF ⟨Spec.Sklb.vOld, 0, 0, 101, 0, 0, 0, [0xAA, 0xBB]⟩ := by decide
+example : Spec.HavokTag.Skel.WF ⟨[115, 107], [104, 107], 0,
+    [⟨⟨[110, 95, 114, 111, 111, 116], -1, (0, 0, 0), (0, 0, 0, 0x3F800000), (0x3F800000, 0x3F800000, 0x3F800000)⟩,
+        0, 0x3F800000, 0⟩,
+     ⟨⟨[110, 95, 104, 97, 114, 97], 0, (0, 0x3F800000, 0), (0, 0, 0, 0x3F800000), (0x3F800000, 0x3F800000, 0x3F800000)⟩,
+        0, 0x3F800000, 1⟩]⟩ := by
+  refine ⟨by decide, by decide, by decide, by decide, ?_⟩
+  intro b hb
+  simp only [List.mem_cons, List.not_mem_nil, or_false] at hb
+  rcases hb with rfl | rfl <;> exact ⟨by decide, by decide⟩
 
 end Physis.C16
